@@ -58,7 +58,7 @@ for n in names:
             out = 'timeout'
     caught = 'exit=1' in out and 'VIOLATION' in out
     sigs = sorted({l.split('sig=')[1].split()[0] for l in out.splitlines() if 'sig=' in l})[:6]
-    verdict = 'CAUGHT' if caught else 'MISSED'
+    verdict = 'CAUGHT' if caught else ('PATCH-FAILED' if 'patch failed' in out else 'MISSED')
     import re
     hits = sum(int(x) for x in re.findall(r'sig=\S+ count=(\d+)', out))      # failing cases of the quick run (all signatures)
     meta['detected_by'] = {'check': prop, 'tier': 'quick', 'caught': caught, 'signatures': sigs, 'failing_cases': hits,
